@@ -30,7 +30,7 @@ ASSUMPTIONS = [
     "arg*: with skipna=True an all-NaN fibre may raise NumPy's ValueError",
     "centered differences need numeric labels; centered + keepaxis must raise ValueError",
 ]
-MANDATORY = ["cumsum", "cumprod", "diff:backward", "diff:forward", "diff:centered", "diff:keepaxis", "diff:n>=size", "diff:int-data-keepaxis",
+MANDATORY = ["cum:narrow-dtype", "cumsum", "cumprod", "diff:backward", "diff:forward", "diff:centered", "diff:keepaxis", "diff:n>=size", "diff:int-data-keepaxis",
              "arg:whole", "arg:axis", "arg:ties", "arg:nan", "arg:1d-axis", "labels:str", "labels:unsorted", "axis:default", "axis:not-last"]
 
 
@@ -59,6 +59,13 @@ def base_array(draw, str_ok=True, vks="ffi", max_dims=4):
 @st.composite
 def cum_case(draw):
     spec, ax = draw(base_array())
+    narrow = draw(st.sampled_from([None, None, "int8", "int32", "uint8", "bool", "float32"]))
+    if narrow:
+        n = len(spec["vals"])
+        spec["vk"] = "b" if narrow == "bool" else ("f" if narrow == "float32" else "i")
+        spec["dtype"] = narrow
+        big = {"int8": [100, 120, 90, 7], "int32": [2000000000, 1500000000, 3, 2], "uint8": [200, 250, 3, 100], "bool": [True, True, False, True], "float32": [0.5, 1.5, 2.25, 3.0]}[narrow]
+        spec["vals"] = [big[(k + draw(st.integers(0, 3))) % 4] for k in range(n)]
     return {"mode": "cum", "spec": spec, "ax": ax, "op": draw(st.sampled_from(["cumsum", "cumprod"])),
             "axis_form": draw(st.sampled_from(["name", "pos", "neg", "default"]))}
 
@@ -154,17 +161,22 @@ def run_cum(case):
     spec, op = case["spec"], case["op"]
     kw, ax = _axis_kw(case["axis_form"], spec, case["ax"])
     a = core.build(spec)
-    snap = core.snapshot(a)
     vals = core.spec_values(spec)
-    what = "%s(%s) dims=%s labels=%s vals=%s" % (op, kw, spec["dims"], spec["labels"], spec["vals"])
+    if spec.get("dtype"):
+        da = core.env.import_dimarray()
+        vals = vals.astype(spec["dtype"])
+        a = da.DimArray(vals.copy(), axes=[x.copy() for x in a.axes])
+    snap = core.snapshot(a)
+    what = "%s(%s) dims=%s labels=%s vals=%s dtype=%s" % (op, kw, spec["dims"], spec["labels"], spec["vals"], vals.dtype)
     sig = {"op": op}
     res = lib(lambda: getattr(a, op)(**kw), what=what, sig=sig)
     _check_axes(res, spec["dims"], spec["labels"], what, sig)
     with np.errstate(all="ignore"):
-        exp = getattr(np, op)(vals, axis=ax)
-    _same_values(res.values, exp, what, sig, tol=(op == "cumprod"))
+        exp = getattr(np, op)(vals, axis=ax)       # NumPy's own result, accumulator type included
+    _same_values(res.values, exp, what, sig, tol=(op == "cumprod" and vals.dtype.kind == "f"))
+    check(res.values.dtype == exp.dtype, "dtype", {"what": what, "got": str(res.values.dtype), "expected": str(exp.dtype)}, sig)
     core.expect_unchanged(a, snap, what, sig)
-    cl = set([op])
+    cl = set([op] + (["cum:narrow-dtype"] if spec.get("dtype") else []))
     o = _cl_axis(cl, spec, ax, case["axis_form"])
     return {"classes": sorted(cl), "nontrivial": len(spec["dims"]) >= 2 or o in ("shuf", "dec")}
 
